@@ -302,6 +302,28 @@ def scenarios(tier):
                         yield fams, tuple(bf), "none"
 
 
+class _ScenarioViolated(Exception):
+    pass
+
+
+def _explore(st, fn, on_exec):
+    """devex.explore that gives up on a scenario once 25 of its schedules violate (the check exits 1 anyway):
+    a broken connector can make the schedule tree far larger than on a correct one."""
+    nbad = [0]
+
+    def wrapped(ch, o):
+        r = on_exec(ch, o)
+        if r:
+            nbad[0] += 1
+            if nbad[0] >= 25:
+                raise _ScenarioViolated()
+    try:
+        return devex.explore(fn, bound=None, on_exec=wrapped, max_execs=100000)
+    except _ScenarioViolated:
+        st.note("scenario_stopped_after_25_violating_schedules")
+        return 0, 0, False
+
+
 def run_all(tier, st, s, nsl):
     if s == 0:
         for tkinds in PAIRS:
@@ -312,10 +334,12 @@ def run_all(tier, st, s, nsl):
                 st.states.add(key)
                 st.nontrivial.add(key)
                 st.outcome(h(("client2", tuple(o["res"]))))
-                for sig, msg in judge_two(tkinds, o):
+                bad = judge_two(tkinds, o)
+                for sig, msg in bad:
                     st.violation("client:" + sig, "two overlapping TCPClient.connect calls with timeouts %r, schedule %r: %s"
                                  % (tkinds, o["trace"], msg), {"kind": "client2", "tkinds": tkinds, "choices": ch.choices()})
-            devex.explore(lambda ch: run_two(ch, tkinds), bound=None, on_exec=on_exec2, max_execs=100000)
+                return bool(bad)
+            _explore(st, lambda ch: run_two(ch, tkinds), on_exec2)
     for k, (fams, bf, tk) in enumerate(scenarios(tier)):
         if k % nsl != s:
             continue
@@ -328,11 +352,13 @@ def run_all(tier, st, s, nsl):
             if len(ch.trace) >= 2:
                 st.nontrivial.add(key)
             st.outcome(h(("client", o["res"][:2], tuple(o["closed"]))))
-            for sig, msg in judge(fams, bf, tk, o):
+            bad = judge(fams, bf, tk, o)
+            for sig, msg in bad:
                 st.violation("client:" + sig, "TCPClient.connect addresses %r bind fails for %r timeout %s schedule %r: %s"
                              % (fams, bf, tk, o["trace"], msg),
                              {"kind": "client", "fams": fams, "bindfail": bf, "tkind": tk, "choices": ch.choices()})
-        n, edges, capped = devex.explore(lambda ch: run(ch, fams, bf, tk), bound=None, on_exec=on_exec, max_execs=100000)
+            return bool(bad)
+        n, edges, capped = _explore(st, lambda ch: run(ch, fams, bf, tk), on_exec)
         if capped:
             st.note("cap_hit")
 
